@@ -48,6 +48,8 @@ type Cfg struct {
 	Probe       bool // probe(name) calls (C07)
 	Carriers    bool
 	NonIterable bool // allow `for` over a scalar (error arm of C06)
+	Wild        bool // any operand kind anywhere (totality checks)
+	WildFilters []string
 }
 
 type vinfo struct {
@@ -73,6 +75,9 @@ type G struct {
 	embedOK      map[int]bool
 	targetBlocks map[int]map[string]bool
 	forceOnly    bool
+	inBlock        int
+	wildN, wildCur int
+	wildMacros   []string
 }
 
 type macroInfo struct {
@@ -152,6 +157,9 @@ func (g *G) callsOK() bool { return g.C.Calls && g.noCalls == 0 }
 
 // Expr generates an expression of the requested type.
 func (g *G) Expr(ty Ty, d int) *m.E {
+	if g.C.Wild {
+		return g.wildExpr(d)
+	}
 	if d <= 0 {
 		return g.leaf(ty)
 	}
@@ -171,6 +179,9 @@ func (g *G) Expr(ty Ty, d int) *m.E {
 }
 
 func (g *G) leaf(ty Ty) *m.E {
+	if g.C.Wild {
+		return g.wildLeaf()
+	}
 	if vs := g.varsOf(ty); len(vs) > 0 && g.intn("leafvar", 0, 2) > 0 {
 		return m.EName(pickS(g, "var", vs))
 	}
@@ -543,6 +554,9 @@ func (g *G) Stmt(nest int) []*m.N {
 	if c.Blocks && len(g.blocks) > 0 && g.inMacro == 0 {
 		kinds = append(kinds, "bprint")
 	}
+	if c.Wild {
+		kinds = append(kinds, "wild", "wild")
+	}
 	switch pickS(g, "stmt", kinds) {
 	case "text":
 		return []*m.N{m.NText(g.Text())}
@@ -587,13 +601,17 @@ func (g *G) Stmt(nest int) []*m.N {
 		g.nblock++
 		name := fmt.Sprintf("blk%d", g.nblock)
 		n := &m.N{K: "block", S: name}
+		g.inBlock++
 		n.Body = g.Body(nest - 1)
+		g.inBlock--
 		g.blocks = append(g.blocks, name)
 		return []*m.N{n}
 	case "bprint":
 		return []*m.N{m.NPrint(&m.E{K: "blockfn", A: []*m.E{m.EStr(pickS(g, "bname", g.blocks))}})}
 	case "mprint":
 		return []*m.N{m.NPrint(g.macroCall())}
+	case "wild":
+		return g.wildStmt()
 	}
 	return nil
 }
